@@ -40,7 +40,9 @@ theorem raw_copy_source (l : Layout) (hF : l.Fits) (i : Nat) (e : Entry)
 
 /-- **`raw_copy_record_spec`** — the record `start_entry` pushes for a raw copy of `src` under `name` at
 sink position `hs`: method, CRC, both sizes and the time stamp are the source's; `large_file` exactly
-when the larger of the two sizes exceeds 0xFFFFFFFF; host system Unix, version made by 46, not encrypted,
+when the larger of the two sizes is at least 0xFFFFFFFF, i.e. does not fit 32 bits or EQUALS the marker
+value (since the repair of F6 for raw copies: a size of exactly 0xFFFFFFFF written literally into the
+local header without a ZIP64 record reads as a marker without its record); host system Unix, version made by 46, not encrypted,
 no extra data, no comment; external attributes `mode << 16` where `mode` is the source's `unix_mode()` —
 and `0o100644` when the source has none.  So (as the model stands):
 * a source without mode (all-zero attributes, or a host other than DOS/Unix) becomes a regular 0644 file;
@@ -52,7 +54,7 @@ theorem raw_copy_record_spec (src : FileData) (name : Bytes) (hs : Nat) :
     f.method = src.method ∧ f.crc32 = src.crc32 ∧ f.compressedSize = src.compressedSize ∧
     f.uncompressedSize = src.uncompressedSize ∧ f.time = src.time ∧ f.fileName = name ∧
     f.largeFile = decide ((if src.compressedSize ≥ src.uncompressedSize then src.compressedSize
-                           else src.uncompressedSize) > 0xFFFFFFFF) ∧
+                           else src.uncompressedSize) ≥ 0xFFFFFFFF) ∧
     f.externalAttributes = (src.unixMode.getD 0o100644) <<< 16 ∧
     f.system = .unix ∧ f.versionMadeBy = 46 ∧ f.encrypted = false ∧ f.usingDataDescriptor = false ∧
     f.extraField = [] ∧ f.fileComment = [] ∧ f.level = none ∧ f.aesMode = none ∧
@@ -119,6 +121,59 @@ theorem raw_copy_bytes_verbatim (ext : WExt) (src : FileData) (raw name : Bytes)
     simp only [List.length_append, List.length_take, List.length_drop, Nat.min_eq_left hp1]
     omega
 
+/-- **`raw_copy_large_iff`** (the format's clause, F6 for raw copies) — a raw copy is written as a
+large-file entry, i.e. `rawHeader` carries the marker in both 32-bit size fields and the local ZIP64
+record with both sizes, EXACTLY when one of the source's sizes does not fit 32 bits or equals the marker
+value 0xFFFFFFFF.  (Before the repair the rule was `>`: a size of exactly 0xFFFFFFFF went literally into
+the local header, a marker without its record for every reader that follows APPNOTE 4.4.8/4.4.9.) -/
+theorem raw_copy_large_iff (src : FileData) (name : Bytes) (hs : Nat) :
+    (rawFile src name hs).largeFile = true ↔
+      (src.compressedSize.toNat ≥ 0xFFFFFFFF ∨ src.uncompressedSize.toNat ≥ 0xFFFFFFFF) := by
+  show decide ((if src.compressedSize ≥ src.uncompressedSize then src.compressedSize
+      else src.uncompressedSize) ≥ ZIP64_BYTES_THR) = true ↔ _
+  have e : ZIP64_BYTES_THR.toNat = 4294967295 := by decide
+  rw [decide_eq_true_eq]
+  by_cases hge : src.compressedSize ≥ src.uncompressedSize
+  · rw [if_pos hge]
+    have h1 : src.uncompressedSize.toNat ≤ src.compressedSize.toNat := UInt64.le_iff_toNat_le.mp hge
+    constructor
+    · intro h; have := UInt64.le_iff_toNat_le.mp h; omega
+    · intro h; apply UInt64.le_iff_toNat_le.mpr; omega
+  · rw [if_neg hge]
+    have h1 : src.compressedSize.toNat < src.uncompressedSize.toNat :=
+      UInt64.lt_iff_toNat_lt.mp (UInt64.not_le.mp hge)
+    constructor
+    · intro h; have := UInt64.le_iff_toNat_le.mp h; omega
+    · intro h; apply UInt64.le_iff_toNat_le.mpr; omega
+
+/-- … so a raw copy that is NOT large has both sizes strictly below the marker: the literal 32-bit
+fields of its local header hold the sizes themselves and neither can be taken for a marker. -/
+theorem raw_copy_small_fields_literal (src : FileData) (name : Bytes) (hs : Nat)
+    (h : (rawFile src name hs).largeFile = false) :
+    (trunc32 src.compressedSize).toNat = src.compressedSize.toNat ∧
+    (trunc32 src.uncompressedSize).toNat = src.uncompressedSize.toNat ∧
+    trunc32 src.compressedSize ≠ 0xFFFFFFFF ∧ trunc32 src.uncompressedSize ≠ 0xFFFFFFFF := by
+  have hn : ¬ (src.compressedSize.toNat ≥ 0xFFFFFFFF ∨ src.uncompressedSize.toNat ≥ 0xFFFFFFFF) :=
+    fun hh => by rw [(raw_copy_large_iff src name hs).mpr hh] at h; cases h
+  have e1 : (trunc32 src.compressedSize).toNat = src.compressedSize.toNat := by
+    show src.compressedSize.toUInt32.toNat = _
+    rw [UInt64.toNat_toUInt32]; omega
+  have e2 : (trunc32 src.uncompressedSize).toNat = src.uncompressedSize.toNat := by
+    show src.uncompressedSize.toUInt32.toNat = _
+    rw [UInt64.toNat_toUInt32]; omega
+  refine ⟨e1, e2, ?_, ?_⟩
+  · intro hc; have := congrArg UInt32.toNat hc; rw [e1] at this
+    have : (0xFFFFFFFF : UInt32).toNat = 4294967295 := by decide
+    omega
+  · intro hc; have := congrArg UInt32.toNat hc; rw [e2] at this
+    have : (0xFFFFFFFF : UInt32).toNat = 4294967295 := by decide
+    omega
+
+/-- non-vacuity: a source of exactly 0xFFFFFFFF uncompressed bytes is large, one byte less is not -/
+example : (rawFile { viewEntry C03.exA 0 0 0 with compressedSize := 5, uncompressedSize := 0xFFFFFFFF } [0x61] 0).largeFile = true ∧
+    (rawFile { viewEntry C03.exA 0 0 0 with compressedSize := 5, uncompressedSize := 0xFFFFFFFE } [0x61] 0).largeFile = false := by
+  decide +kernel
+
 /-- `hraw` holds whenever the raw bytes have the length the source record announces (as they do when
 they come from `by_index_raw`, §1). -/
 theorem raw_len_ok (src : FileData) (raw name : Bytes) (hs : Nat)
@@ -128,10 +183,10 @@ theorem raw_len_ok (src : FileData) (raw name : Bytes) (hs : Nat)
   · exact Or.inl hl
   · right
     show decide ((if src.compressedSize ≥ src.uncompressedSize then src.compressedSize
-      else src.uncompressedSize) > ZIP64_BYTES_THR) = true
+      else src.uncompressedSize) ≥ ZIP64_BYTES_THR) = true
     have e : ZIP64_BYTES_THR.toNat = 4294967295 := by decide
     rw [decide_eq_true_eq]
-    apply UInt64.lt_iff_toNat_lt.mpr
+    apply UInt64.le_iff_toNat_le.mpr
     split
     · omega
     · next hge =>
